@@ -93,6 +93,7 @@ class Tr:
         self.ssa = 0
         self.genexps = {}
         self.methods = {}
+        self.tables = {}
         self.inl = 0
         self.nested = {}          # name -> (FunctionDef, outer env) not yet instantiated
         self.instantiated = {}    # name -> (coq name, extra param names, ret type)
@@ -110,6 +111,8 @@ class Tr:
                 return [], 'cv', 'cv'
             if n.id not in env:
                 fail(f'unknown name {n.id}', n)
+            if env[n.id][1] == 'ast':
+                return self.E(env[n.id][0], env)
             return [], env[n.id][0], env[n.id][1]
         if isinstance(n, ast.Constant):
             if isinstance(n.value, bool) or n.value is None:
@@ -126,6 +129,9 @@ class Tr:
             self.need(t, 'Z', n)
             return b, f'(- {v})%Z', 'Z'
         if isinstance(n, ast.BinOp) and isinstance(n.op, (ast.Add, ast.Sub)):
+            k = self.const_int(n, env)
+            if k is not None:
+                return [], (f'({k})%Z' if k >= 0 else f'(- ({-k})%Z)%Z'), 'Z'
             b1, v1, t1 = self.E(n.left, env)
             b2, v2, t2 = self.E(n.right, env)
             self.need(t1, 'Z', n)
@@ -174,6 +180,22 @@ class Tr:
                 ty = t
             return binds, '[' + '; '.join(vals) + ']', ('list', ty)
         fail('expression form not in the translated subset', n)
+
+    def const_int(self, n, env):
+        """value of an integer expression made of literals, +, -, unary - and locals bound to such expressions"""
+        if isinstance(n, ast.Constant) and isinstance(n.value, int) and not isinstance(n.value, bool):
+            return n.value
+        if isinstance(n, ast.Name) and n.id in env and env[n.id][1] == 'ast':
+            return self.const_int(env[n.id][0], env)
+        if isinstance(n, ast.UnaryOp) and isinstance(n.op, ast.USub):
+            k = self.const_int(n.operand, env)
+            return None if k is None else -k
+        if isinstance(n, ast.BinOp) and isinstance(n.op, (ast.Add, ast.Sub)):
+            a, b = self.const_int(n.left, env), self.const_int(n.right, env)
+            if a is None or b is None:
+                return None
+            return a + b if isinstance(n.op, ast.Add) else a - b
+        return None
 
     def need(self, t, want, n):
         if t != want:
@@ -253,6 +275,8 @@ class Tr:
             self.need(tp, 'pat', n)
             tmp = self.fresh()
             return bo + bp + [(tmp, f'p_load_axiom {vo} {vp}')], tmp, 'unit'
+        if isinstance(f, ast.Name) and f.id in env and env[f.id][1] == 'ast':
+            return self.E(ast.copy_location(ast.Call(func=env[f.id][0], args=n.args, keywords=n.keywords), n), env)
         if isinstance(f, ast.Name):
             name = f.id
             if name == 'len' and len(n.args) == 1:
@@ -410,6 +434,32 @@ class Tr:
 
 
     # ------------------------------------------------------------------ canonical forms
+    def is_symbolic(self, e):
+        """expressions that are kept as syntax and substituted at their uses: an interpreter method not yet called, an int literal"""
+        return ((isinstance(e, ast.Attribute) and self.is_interp(e.value))
+                or (isinstance(e, ast.Constant) and isinstance(e.value, int) and not isinstance(e.value, bool)))
+
+    def chain_info(self, s):
+        """an if/elif chain `NAME == c1 / NAME == c2 / ...` without final else -> (NAME, [constants], [bodies])"""
+        consts, bodies, name = [], [], None
+        cur = s
+        while True:
+            h = None
+            if (isinstance(cur, ast.If) and isinstance(cur.test, ast.Compare) and len(cur.test.ops) == 1 and isinstance(cur.test.ops[0], ast.Eq)
+                    and isinstance(cur.test.left, ast.Name) and isinstance(cur.test.comparators[0], ast.Constant)):
+                h = (cur.test.left.id, cur.test.comparators[0].value)
+            if h is None or (name is not None and h[0] != name):
+                return None
+            name = h[0]
+            consts.append(h[1])
+            bodies.append(cur.body)
+            if not cur.orelse:
+                return name, consts, bodies, s
+            if len(cur.orelse) == 1 and isinstance(cur.orelse[0], ast.If):
+                cur = cur.orelse[0]
+            else:
+                return None
+
     def is_helper(self, name):
         return name in self.nested or name in self.module_funcs
 
@@ -516,26 +566,62 @@ class Tr:
                 stmts, changed = chain + rest, True
                 continue
             # consecutive `if NAME == c_i:` (distinct constants, NAME not re-assigned, no early exit) == an if/elif chain
-            h = self.eq_const_test(s)
-            if h is not None and rest and self.eq_const_test(rest[0]) is not None:
-                run = [s]
+            h = self.chain_info(s)
+            if h is not None and rest and self.chain_info(rest[0]) is not None and self.chain_info(rest[0])[0] == h[0]:
+                run = [h]
                 for nx in rest:
-                    hn = self.eq_const_test(nx)
+                    hn = self.chain_info(nx)
                     if hn is None or hn[0] != h[0]:
                         break
-                    run.append(nx)
-                consts = [self.eq_const_test(x)[1] for x in run]
+                    run.append(hn)
+                consts = [c for r in run for c in r[1]]
+                bodies = [b for r in run for b in r[2]]
                 ok = len(set(map(repr, consts))) == len(consts) and all(
-                    h[0] not in self.assigned(x.body) and not self.diverts(x.body) for x in run)
+                    h[0] not in self.assigned(b) and not self.diverts(b) for b in bodies)
                 if ok and len(run) > 1:
                     chain = []
-                    for x in reversed(run):
-                        chain = [mk(ast.If(test=x.test, body=x.body, orelse=chain))]
+                    for c, b in reversed(list(zip(consts, bodies))):
+                        test = ast.Compare(left=ast.Name(id=h[0], ctx=ast.Load()), ops=[ast.Eq()], comparators=[ast.Constant(value=c)])
+                        chain = [mk(ast.If(test=test, body=b, orelse=chain))]
                     stmts, changed = chain + rest[len(run) - 1:], True
                     continue
             if isinstance(s, (ast.Assign, ast.AnnAssign)) and s.value is not None:
                 target = s.targets[0] if isinstance(s, ast.Assign) and len(s.targets) == 1 else (s.target if isinstance(s, ast.AnnAssign) else None)
                 v = s.value
+                # T = {'lit': e, ...}  : a literal lookup table, kept as syntax
+                if (isinstance(target, ast.Name) and isinstance(v, ast.Dict) and v.keys and all(isinstance(k, ast.Constant) and isinstance(k.value, str) for k in v.keys)
+                        and all(self.is_symbolic(e) or (isinstance(e, ast.Tuple) and all(self.is_symbolic(x) for x in e.elts)) for e in v.values)):
+                    self.tables[target.id] = v
+                    stmts, changed = rest, True
+                    continue
+                # x = T.get(k); if x is not None: BODY [else: ELSE]   ==   if k == 'lit1': BODY[x := e1] elif ...: ... [else: ELSE]
+                if (isinstance(target, ast.Name) and isinstance(v, ast.Call) and isinstance(v.func, ast.Attribute) and v.func.attr == 'get'
+                        and isinstance(v.func.value, ast.Name) and v.func.value.id in self.tables and len(v.args) == 1 and not v.keywords
+                        and isinstance(v.args[0], ast.Name) and rest and isinstance(rest[0], ast.If)):
+                    x, key, tbl, cond = target.id, v.args[0], self.tables[v.func.value.id], rest[0]
+                    t = cond.test
+                    shape = None
+                    if (isinstance(t, ast.Compare) and len(t.ops) == 1 and isinstance(t.left, ast.Name) and t.left.id == x
+                            and isinstance(t.comparators[0], ast.Constant) and t.comparators[0].value is None):
+                        shape = 'some' if isinstance(t.ops[0], ast.IsNot) else ('none' if isinstance(t.ops[0], ast.Is) else None)
+                    used_later = any(isinstance(n2, ast.Name) and n2.id == x for st in rest[1:] for n2 in ast.walk(st))
+                    if shape is None or used_later:
+                        fail('table lookup that is not immediately tested against None', s)
+                    hit, miss = (cond.body, cond.orelse) if shape == 'some' else (cond.orelse, cond.body)
+                    if any(isinstance(n2, ast.Name) and n2.id == x for st in miss for n2 in ast.walk(st)):
+                        fail('table lookup result used where it is None', s)
+
+                    def subst(block, val):
+                        class Sub(ast.NodeTransformer):
+                            def visit_Name(self, nn):
+                                return copy.deepcopy(val) if nn.id == x and isinstance(nn.ctx, ast.Load) else nn
+                        return [ast.fix_missing_locations(Sub().visit(copy.deepcopy(st))) for st in block]
+                    chain = miss
+                    for k, val in reversed(list(zip(tbl.keys, tbl.values))):
+                        test = ast.Compare(left=copy.deepcopy(key), ops=[ast.Eq()], comparators=[k])
+                        chain = [mk(ast.If(test=test, body=subst(hit, val), orelse=chain))]
+                    stmts, changed = chain + rest[1:], True
+                    continue
                 # x = (generator)  : remembered, consumed by the next statement
                 if isinstance(target, ast.Name) and isinstance(v, ast.GeneratorExp):
                     self.genexps[target.id] = (v, len(rest))
@@ -610,6 +696,21 @@ class Tr:
                         return mk(ast.Expr(value=ast.Call(func=copy.deepcopy(c.func), args=[e], keywords=[])))
                     stmts, changed = [mk(ast.If(test=ie.test, body=[app(ie.body)], orelse=[app(ie.orelse)]))] + rest, True
                     continue
+            if (isinstance(s, ast.For) and isinstance(s.iter, ast.Call) and isinstance(s.iter.func, ast.Name) and s.iter.func.id == 'range'
+                    and len(s.iter.args) == 1 and isinstance(s.target, ast.Name) and not s.orelse
+                    and self.const_int(s.iter.args[0], env) is not None
+                    and not any(isinstance(x, (ast.Continue, ast.Break)) for b in s.body for x in ast.walk(b))):
+                n_iter = self.const_int(s.iter.args[0], env)
+                if n_iter > 8:
+                    fail('loop over a long constant range', s)
+                out = []
+                for i in range(n_iter):
+                    class SubI(ast.NodeTransformer):
+                        def visit_Name(self, nn):
+                            return ast.copy_location(ast.Constant(value=i), nn) if nn.id == s.target.id and isinstance(nn.ctx, ast.Load) else nn
+                    out += [ast.fix_missing_locations(SubI().visit(copy.deepcopy(b))) for b in s.body]
+                stmts, changed = out + rest, True
+                continue
             if isinstance(s, ast.For) and isinstance(s.iter, ast.Call) and isinstance(s.iter.func, ast.Name) and not s.orelse:
                 it = s.iter
                 # for v in map(f, xs)   ==   for x in xs: v = f(x)
@@ -783,6 +884,9 @@ class Tr:
                     and all(isinstance(e, ast.Name) for e in target.elts):
                 binds, vals = [], []
                 for e in s.value.elts:
+                    if self.is_symbolic(e):
+                        vals.append((e, 'ast'))
+                        continue
                     b1, v1, t1 = self.E(e, env)
                     binds += b1
                     vals.append((v1, t1))
